@@ -173,6 +173,35 @@ func ParseStreamCallback variant loaddb
   }
 
 // ---------------------------------------------------------------------------------------------
+// ParseStreamCallback specialised by the callback of utils.WalkNodesInStream (every command that walks the log
+// with a reporter): the stop-on-error results, plus the reporter's invariant and the summary BufStep of
+// everything it wrote, carried across all records (C17).
+// ---------------------------------------------------------------------------------------------
+func ParseStreamCallback variant walk
+  bind callback = utils.WalkNodesInStream$1
+  props C08 C09 C10 C17
+  requires @reporter RepInv(captured(callback, r)) && (captured(callback, filter) == nil || *captured(callback, filter) != nil)
+  modifies *
+  modifies ghost(cbLen, cbErr, cbNode, cbStop, cbRet, cbLineNo, cbLine, cbHeader, cbElems, cbNElems, scRd, scPos, privLo, evOf, accKey, accP, accN, accH, bufSticky, sinkFailed, sinkPend, prLen, prSink, prArg, prArgs, tnodes, tdepth, tmax, tmapOf)
+  let R := captured(callback, r)
+  let B := RepBuf(captured(callback, r))
+  ensures @fails-on-malformed [C09] result == nil ==> (forall i int :: {RdLine(rd, i)} 0 <= i && i < RdN(rd) ==> !Malformed(rd, i, cc))
+  ensures @fails-on-unreadable [C10] result == nil ==> !RdFailed(rd)
+  ensures @quotes-first [C09] forall j int :: {cbErr[j]} old(cbLen) <= j && j < cbLen && cbErr[j] != nil ==> j == cbLen - 1 && result == cbErr[j] && (forall i2 int :: {RdLine(rd, i2)} 0 <= i2 && i2 < cbLineNo[j] - 1 ==> !Malformed(rd, i2, cc))
+  ensures @error-or-all [C10] result == nil ==> (forall j int :: {cbStop[j]} old(cbLen) <= j && j < cbLen ==> !cbStop[j] && cbErr[j] == nil)
+  ensures @reporter [C17 C08] captured(callback, r) == R && RepInv(R) && RepBuf(R) == B && BufStep(B)
+  loop 1 {
+    invariant @clean forall i int :: {RdLine(rd, i)} 0 <= i && i < lineNumber ==> !Malformed(rd, i, cc)
+    invariant @noerr forall j int :: {cbErr[j]} old(cbLen) <= j && j < cbLen ==> cbErr[j] == nil
+    invariant @rep-same captured(callback, r) == R && RepBuf(R) == B
+    invariant @rep-inv RepInv(R)
+    invariant @rep-sink BufStep(B)
+    invariant @filter (captured(callback, filter) == nil || *captured(callback, filter) != nil) && captured(callback, filter) == old(captured(callback, filter))
+    invariant @own node != nil ==> arr(node.Elements) >= privLo && (node.Metadata != nil ==> ref(node.Metadata) >= privLo && arr(*node.Metadata) >= privLo)
+    invariant @book-below RepBookBelow(R, privLo)
+  }
+
+// ---------------------------------------------------------------------------------------------
 // ParseStreamCallback specialised by lint's callback: every error event is printed exactly once, in order
 // (prOf: event -> print, evOfPr: print -> event are ghost witnesses of the bijection)
 // ---------------------------------------------------------------------------------------------
@@ -184,7 +213,7 @@ func ParseStreamCallback variant lint
   props C08 C09 C10
   let out := payload(captured(callback, lc).ReporterConfig.Output)
   modifies captured(callback, errorsFound)
-  modifies ghost(cbLen, cbErr, cbNode, cbStop, cbRet, cbLineNo, cbLine, cbHeader, cbElems, cbNElems, scRd, scPos, privLo, evOf, prOf, evOfPr, bufSticky, sinkFailed, sinkPend, prLen, prSink, prArg)
+  modifies ghost(cbLen, cbErr, cbNode, cbStop, cbRet, cbLineNo, cbLine, cbHeader, cbElems, cbNElems, scRd, scPos, privLo, evOf, prOf, evOfPr, bufSticky, sinkFailed, sinkPend, prLen, prSink, prArg, prArgs)
   ensures @lc [C09] captured(callback, lc) == old(captured(callback, lc))
   ensures @printed-once [C09] forall j int :: {cbErr[j]} old(cbLen) <= j && j < cbLen && cbErr[j] != nil ==> old(prLen) <= prOf[j] && prOf[j] < prLen && prArg[prOf[j]] == cbErr[j] && prSink[prOf[j]] == out && evOfPr[prOf[j]] == j
   ensures @only-errors [C09] forall k int :: {prArg[k]} old(prLen) <= k && k < prLen ==> old(cbLen) <= evOfPr[k] && evOfPr[k] < cbLen && cbErr[evOfPr[k]] != nil && prOf[evOfPr[k]] == k && !typeis(prArg[k], "string")
